@@ -157,6 +157,7 @@ func verifAssume(cond bool) {}
 //@   ghost field lastFuncSender Sender
 //@   ghost field lastFuncErr error
 
+//@ spec fn b64text(s string) string = uninterpreted
 //@ spec fn matchMsg(h MessageHandler, e *Message) bool = uninterpreted
 //@ spec fn rec firstMsg(hs []MessageHandler, e *Message, k int) int = ite(k >= len(hs), -1, ite(matchMsg(hs[k], e), k, firstMsg(hs, e, k+1)))
 
@@ -800,6 +801,34 @@ func verifAssume(cond bool) {}
 //@   props C08
 //@   modifies nothing
 //@   ensures [C08] @configuredcredential result != nil && istype(result, *ExternalAuthentication) && result.(*ExternalAuthentication).Token == token && result.(*ExternalAuthentication).Issuer == issuer
+//@ func (*PlainAuthentication).SetPasswordAsBase64 :: (a, password) ()
+//@   props C08
+//@   requires a != nil
+//@   modifies a.Password
+//@   ensures [C08] @encodedcredential a.Password == b64text(password)
+//@ func (*KeyAuthentication).SetKeyAsBase64 :: (a, key) ()
+//@   props C08
+//@   requires a != nil
+//@   modifies a.Key
+//@   ensures [C08] @encodedcredential a.Key == b64text(key)
+//@ func (*ClientBuilder).PlainAuthentication :: (b, password) (result)
+//@   props C08
+//@   requires b != nil && b.config != nil && !sameobj(b.config, b)
+//@   modifies b.config.Authenticator
+//@   ensures [C08] @installs result == b && b.config.Authenticator != nil
+//@ func (*ClientBuilder).PlainAuthentication$1 :: (schemes, roundTrip) (result)
+//@   props C08
+//@   modifies nothing
+//@   ensures [C08] @configuredcredential result != nil && istype(result, *PlainAuthentication) && result.(*PlainAuthentication).Password == b64text(password)
+//@ func (*ClientBuilder).KeyAuthentication :: (b, key) (result)
+//@   props C08
+//@   requires b != nil && b.config != nil && !sameobj(b.config, b)
+//@   modifies b.config.Authenticator
+//@   ensures [C08] @installs result == b && b.config.Authenticator != nil
+//@ func (*ClientBuilder).KeyAuthentication$1 :: (schemes, roundTrip) (result)
+//@   props C08
+//@   modifies nothing
+//@   ensures [C08] @configuredcredential result != nil && istype(result, *KeyAuthentication) && result.(*KeyAuthentication).Key == b64text(key)
 //@ func (*ClientBuilder).ChannelBufferSize :: (b, bufferSize) (result)
 //@   props C04
 //@   requires b != nil && b.config != nil && !sameobj(b.config, b)
